@@ -32,6 +32,7 @@
   checked with rustc (vh-probes/must_fail_c07_*).
 -/
 import ImapVerif.Proofs.FramesInv
+import ImapVerif.Proofs.CodecRT
 
 namespace C07
 
@@ -164,6 +165,20 @@ theorem shift_refused_while_shared (s : St) (n newOff cap : Nat) (w : Win) (hw :
   split
   · rfl
   · simp [hsh]
+
+/-! ### the view is a function of the frame's own bytes -/
+
+/-- for a connection carrying conformant responses, every frame the codec cuts holds exactly the
+    bytes of one response, and the parsed value is the parse of those bytes alone: nothing outside
+    the frame's range takes part in what `parsed()` shows.  (Together with `frames_intact`: unchanged
+    cells, hence an unchanged value.) -/
+theorem view_is_parse_of_own_bytes (items : List (Response × Bytes)) (hall : ∀ x ∈ items, RT.EncResponse x.1 x.2)
+    (f : Client.Frame) (hf : f ∈ CodecRT.framesOfEncs items) :
+    Grammar.parseResponse f.raw = .ok f.value [] := by
+  simp only [CodecRT.framesOfEncs, List.mem_map] at hf
+  obtain ⟨x, hx, rfl⟩ := hf
+  have := RT.parseResponse_enc x.1 x.2 (hall x hx) []
+  simpa using this
 
 /-! ### the hypotheses are satisfiable: a history with retained frames, reallocation while they
     are live, out-of-order drops and the buffer dropped first -/
